@@ -172,6 +172,9 @@ def run_prog_check(prop, props_files, tier, oracles, features=gen_prog.ALL, n_qu
             elif o == "c17wake":
                 for p_, msg, tag in proglayer.oracle_c17_wake(evs, term, cs):
                     found.append((msg, tag))
+            elif o == "acqfifo":
+                for p_, msg, tag in proglayer.oracle_acq_fifo(evs, term, cs):
+                    found.append((msg, tag))
             elif o == "c07await":
                 # only the rules about awaited JoinHandles of futures (C17: the result is delivered after the task is over)
                 for p_, msg, tag in proglayer.oracle_c07(evs, term, cs):
